@@ -7,7 +7,7 @@ from harness import core, py2lean, instantiate
 from harness.core import Outcome, f2b, b2f
 
 ID = "C16"
-LEAN_TARGETS = ["BeyondVerif.Props.C16", "BeyondVerif.Props.C16Helpers"]
+LEAN_TARGETS = ["BeyondVerif.Props.C16", "BeyondVerif.Props.C16Helpers", "BeyondVerif.Props.C16Seq", "BeyondVerif.Witness.C16"]
 THEOREMS = [
     "BeyondVerif.C16.cw_zero",
     "BeyondVerif.C16.cw_solves_hill",
@@ -23,6 +23,22 @@ THEOREMS = [
     "BeyondVerif.C16.continuous_resumed",
     "BeyondVerif.C16.continuous_already_passed",
     "BeyondVerif.C16.continuous_after",
+    "BeyondVerif.C16.state_solves_hill_piecewise_thrust",
+    "BeyondVerif.C16.hillSol_initial",
+    "BeyondVerif.C16.impulse_term_jump",
+    "BeyondVerif.C16.burn_term_joins",
+    "BeyondVerif.C16.cwPropagateFixed_eq_hillSol",
+    "BeyondVerif.C16.propagate_eq_hillSol_partial",
+    "BeyondVerif.C16.noCut_of_outsideBurns",
+    "BeyondVerif.C16.noCut_of_chronoDisjoint",
+    "BeyondVerif.C16.propagate_backward_eq_hillSol_partial",
+    "BeyondVerif.C16.propagate_backward_within_burn",
+    "BeyondVerif.C16.propagate_tnw_is_permuted_qsw",
+    "BeyondVerif.C16W.impulse_inside_burn_violates",
+    "BeyondVerif.C16W.impulse_inside_burn_not_noCut",
+    "BeyondVerif.C16W.overlapping_burn_violates",
+    "BeyondVerif.C16W.backward_violates",
+    "BeyondVerif.C16W.fixed_sequencing_on_the_witnesses",
     "BeyondVerif.C16.coelliptic_drift",
     "BeyondVerif.C16.hohmann_moves",
     "BeyondVerif.C16.hohmann_continuous_moves",
